@@ -51,6 +51,8 @@ func (g *fgen) call(in ssa.CallInstruction, st *state) []val {
 	if _, isB := in.Common().Value.(*ssa.Builtin); isB {
 		return g.callInner(in, st)
 	}
+	g.ginvExempt = g.underConstruction(in)
+	defer func() { g.ginvExempt = nil }()
 	g.assertGinvs(st, "ginv-call", g.siteLabel(in.Pos(), "call"), in.Pos())
 	var before *state
 	if len(g.stackLocals) > 0 {
